@@ -253,11 +253,11 @@ class _Failures(object):
         return "; ".join("%s x%d" % kv for kv in sorted(self.count.items()))
 
 
-def _explore(ctx, depth, specs, max_sections, max_states_per_layer=None):
+def _explore(ctx, depth, specs, max_sections, max_states_per_layer=None, initial=1):
     fails = _Failures(ctx)
     frontier = [()]
     seen = set()
-    r0 = _run((), W, 1, 0)
+    r0 = _run((), W, initial, 0)
     seen.add(repr(r0["state"]))
     complete = True
     for d in range(depth):
@@ -266,17 +266,17 @@ def _explore(ctx, depth, specs, max_sections, max_states_per_layer=None):
             if ctx.out_of_time():
                 complete = False
                 break
-            nsec = 1 + sum(1 for o in hist if o[0] == "new")
-            gg = [[]]
+            nsec = initial + sum(1 for o in hist if o[0] == "new")
+            gg = [[] for _ in range(initial)]
             for o in hist:
                 _apply_ghost(gg, o)
             on_screen = any(gg_i for gg_i in gg)
             for op in _op_alphabet(nsec, d, specs, max_sections):
                 ops = hist + (op,)
-                r = _run(ops, W, 1, len(ops) - 1)
+                r = _run(ops, W, initial, len(ops) - 1)
                 ctx.case(list(ops), nontrivial=len(ops) >= 2 and on_screen, sample=_short(ops))
                 if not r["ok"]:
-                    fails.add(r["cls"], r["what"], {"ops": list(ops), "width": W, "sections": 1})
+                    fails.add(r["cls"], r["what"], {"ops": list(ops), "width": W, "sections": initial})
                     continue  # a broken state is not extended
                 key = repr(r["state"])
                 if key not in seen:
@@ -326,7 +326,7 @@ def _random_ops(rng, width, length, partial, max_sections):
 def bounded(ctx):
     quick = ctx.quick
     specs_q = [(3,), (W - 1,), (W,), (W + 1,), (2 * W + 1,), (3, W + 1)]
-    specs_t = specs_q + [(0,), (W, 3)]
+    specs_t = specs_q + [(0,)]
 
     # ---- 1. explicit-state exploration, one and two sections
     if quick:
@@ -338,20 +338,24 @@ def bounded(ctx):
                                   "one representative per distinct state extended")
         complete, nstates, fails = _explore(ctx, 4, specs_q, 2)
         ctx.done(exhaustive=complete, note="distinct states %d; %s" % (nstates, fails.note()))
-        ctx.check("explore_3sec", "histories up to depth 4 over <= 3 sections, width 10; at most 150 seeded representative states extended per layer (sampled)")
-        complete, nstates, fails = _explore(ctx, 4, specs_q, 3, max_states_per_layer=150)
+        ctx.check("explore_3sec", "histories up to depth 4 on three sections (created up front), width 10; at most 150 seeded representative states extended per layer (sampled)")
+        complete, nstates, fails = _explore(ctx, 4, specs_q, 3, max_states_per_layer=150, initial=3)
         ctx.done(exhaustive=complete, note="distinct states %d; %s" % (nstates, fails.note()))
     else:
-        ctx.check("explore_2sec", "all histories up to depth 6 over <= 2 sections, width 10, 8 texts (lengths 0,3,9,10,11,21 and two 2-line texts); "
+        ctx.check("explore_1sec", "all histories up to depth 6 on one section, width 10, 7 texts (lengths 0,3,9,10,11,21 and a 2-line text); "
                                   "one representative per distinct state extended")
-        complete, nstates, fails = _explore(ctx, 6, specs_t, 2)
+        complete, nstates, fails = _explore(ctx, 6, specs_t, 1)
         ctx.done(exhaustive=complete, note="distinct states %d; %s" % (nstates, fails.note()))
-        ctx.check("explore_3sec", "histories up to depth 6 over <= 3 sections, width 10; at most 1500 seeded representative states extended per layer (sampled)")
-        complete, nstates, fails = _explore(ctx, 6, specs_t, 3, max_states_per_layer=1500)
+        ctx.check("explore_2sec", "all histories up to depth 6 over <= 2 sections (second one created by an operation), width 10, 6 texts "
+                                  "(lengths 3,9,10,11,21 and a 2-line text); one representative per distinct state extended")
+        complete, nstates, fails = _explore(ctx, 6, specs_q, 2)
+        ctx.done(exhaustive=complete, note="distinct states %d; %s" % (nstates, fails.note()))
+        ctx.check("explore_3sec", "histories up to depth 6 on three sections (created up front), width 10; at most 600 seeded representative states extended per layer (sampled)")
+        complete, nstates, fails = _explore(ctx, 6, specs_q, 3, max_states_per_layer=600, initial=3)
         ctx.done(exhaustive=complete, note="distinct states %d; %s" % (nstates, fails.note()))
 
     # ---- 2. random sequences, without and with partial clears
-    for name, partial, n in (("random_full", False, 300 if quick else 6000), ("random_partial", True, 300 if quick else 6000)):
+    for name, partial, n in (("random_full", False, 300 if quick else 5000), ("random_partial", True, 300 if quick else 5000)):
         ctx.check(name, "%d seeded sequences of length 5..40 over 1-3 sections, widths 5/10/20/80, %s" % (
             n, "with clear(n), n in 1..4" if partial else "write_line / overwrite / clear() only"))
         fails = _Failures(ctx)
@@ -368,10 +372,10 @@ def bounded(ctx):
 
     # ---- 3. plain outputs
     ctx.check("plain", "all histories up to depth %d over <= 2 sections (width 10) and %d seeded random sequences up to length 40 "
-                       "on an output without ANSI support" % (3 if quick else 4, 200 if quick else 3000))
+                       "on an output without ANSI support" % (3, 200 if quick else 3000))
     fails = _Failures(ctx)
     frontier = [()]
-    for d in range(3 if quick else 4):
+    for d in range(3):
         nxt = []
         for hist in frontier:
             nsec = 1 + sum(1 for o in hist if o[0] == "new")
